@@ -271,7 +271,7 @@ def main():
     res, errs = ({}, [])
     kinds = cfg.get("results", ["K1"])
     nres = len(kinds)
-    if model_ok:
+    if model_ok and nres > 0:
         res, errs = eval_cases(outdir, meta.get("files") or [], nres, log)
         for e in errs:
             broken.append({"kind": "K", "what": e})
